@@ -16,6 +16,7 @@ mod s_params;
 mod s_print;
 mod s_snapshot;
 mod s_symbols;
+mod s_untrusted;
 mod s_versions;
 
 use std::env;
@@ -44,6 +45,8 @@ fn main() {
         "print" => s_print::run(&opts),
         "params" => s_params::run(&opts),
         "keys" => s_keys::run(&opts),
+        "untrusted" => s_untrusted::run(&opts),
+        "untrusted-child" => s_untrusted::child(&opts),
         "parsetext" => s_print::parsetext(),
         other => {
             eprintln!("unknown stream {other}");
